@@ -274,6 +274,22 @@ def scenario(case):
         # an earlier, unrelated traversal of the same hierarchy (here: the do-nothing base walker) must not matter
         from hdl21.walker import HierarchyWalker
         HierarchyWalker.walk(top)
+    if case.get("late_import"):
+        # one PDK registered: an un-targeted compile works; then another PDK package is imported (and thereby
+        # registered); a further un-targeted compile has no unambiguous default any more and must be refused
+        try:
+            warm, _ = build([case["reqs"][0]], {"depth": 1, "levels": [0]})
+            h.pdk.compile(warm[-1])
+        except Exception as e:
+            out["notes"].append("warmup_default_compile_raised:%s" % type(e).__name__)
+        imp(case["late_import"])
+        try:
+            h.pdk.compile(top)
+            out["fails"].append(("default_ambiguous_accepted", "a second PDK was registered after a default compile; a further un-targeted hdl21.pdk.compile() still compiled instead of reporting that there is no unambiguous default"))
+        except Exception as e:
+            if not str(e).strip():
+                out["fails"].append(("undescriptive_error:%s:%s" % (type(e).__name__, target), "ambiguous default refused without a message"))
+        return out
     try:
         do_compile()
     except StopIteration as e:
@@ -452,6 +468,20 @@ def table_cases(tabs_by_pdk):
                             yield mk({"prim": prim, "params": {"model": r["key"], "mult": TWO}})
             yield mk({"prim": "Mos", "params": {"model": "NO_SUCH_DEVICE"}})
             yield mk({"prim": "PhysicalResistor", "params": {"model": "NO_SUCH_DEVICE"}})
+            # names that are not table entries but fragments / near misses of entries: no row satisfies them
+            keys = {r["key"] for r in tabs["mos"]}
+            frags = set()
+            for kname in sorted(keys):
+                frags |= {kname[:-1], kname[1:], kname.rsplit("_", 1)[0], kname.split("_", 1)[-1], kname.lower(), kname + "_"}
+            frags |= {"_", "NMOS", "V"}
+            for fr in sorted(f for f in frags if f and f not in keys)[:60]:
+                yield mk({"prim": "Mos", "params": {"model": fr}})
+            for cls, prim in (("res", "PhysicalResistor"), ("cap", "PhysicalCapacitor"), ("diode", "Diode"), ("bjt", "Bipolar")):
+                ck = {r["key"] for r in tabs[cls]}
+                for kname in sorted(ck)[:4]:
+                    for fr in (kname[:-1], kname.lower() if kname.lower() != kname else kname.upper(), kname + "_"):
+                        if fr and fr not in ck:
+                            yield mk({"prim": prim, "params": {"model": fr}})
         else:
             for tp in TPS:
                 for vth in ("STD", "LOW"):
@@ -469,6 +499,8 @@ def table_cases(tabs_by_pdk):
             many.append({"prim": "Mos", "params": pp})
         c = dict(base); c["reqs"] = many; c["shape"] = {"depth": 2, "levels": [0, 0, 1, 1, 1]}; c["twice"] = True
         yield c
+        other = {"sample": "asap7", "asap7": "sample", "sky130": "gf180", "gf180": "sky130"}[pdk]
+        yield mk({"prim": "Mos", "params": {"tp": "PMOS", "family": "CORE"} if pdk != "asap7" else {"tp": "PMOS"}}, how="default", late_import=other)
         for how in ("default", "name", "module"):
             yield mk({"prim": "Mos", "params": {"tp": "PMOS", "family": "CORE"} if pdk != "asap7" else {"tp": "PMOS"}}, how=how)
 
